@@ -24,7 +24,7 @@ from comb_spec_searcher.rule_db.forest import ForestRuleExtractor, TableMethod
 from comb_spec_searcher.typing import ForestRuleKey, RuleBucket
 
 ID = "C11"
-QUICK_RUNS = 6000
+QUICK_RUNS = 15000
 CHUNK = 100
 THOROUGH_BUDGET_S = 600
 LEVEL = "exploration"
